@@ -4,6 +4,7 @@ CONSTANTS
   EqPool <- MCEqPool
   MaxEqs <- MCMaxEqs
   InsBase <- MCInsBase
+  Patterns <- MCPatterns
   Rule <- MCRule
   Instances <- MCInstances
 INIT Init
